@@ -110,6 +110,9 @@ def check(prop: str, tier: str, root: Optional[str] = None, overlay: Optional[Di
     known_hits: List[Instance] = []
     unrec: List[Instance] = []
     insts: List[Instance] = ctx.instances if ctx is not None else []
+    if ctx is not None:
+        for new, old in sorted(getattr(ctx.program, "renames", {}).items()):
+            say(f"NOTE {new} is read as {old}: a pure rename of a private name (same classes, parameters and referencing functions); reports use the name {old}")
     for rid, s in summary.items():
         say(f"RULE {rid} instances={s['instances']} holds={s['holds']} violated={s['violated']} unrecognised={s['unrecognised']}  -- {s['title']}")
     for i in insts:
@@ -198,6 +201,7 @@ def write_evidence(prop: str, tier: str, seed: int, ctx: Ctx, summary: Dict[str,
         "worlds": ctx.stats["worlds"],
         "program": ctx.program.stats(),
         "program_digest": ctx.program.digest(),
+        "renames_read_back": dict(getattr(ctx.program, "renames", {})),
         "samples": samples,
         "exhaustive": True,
         "known_findings_reported": [i.to_json() for i in known_hits],
